@@ -103,6 +103,11 @@ func init() {
 		"\tcase \"trun\": // Track Fragment Run\n\t\tm := &moof{}\n\t\tif t := ctx.currentTrafBox(); t != nil {", "moof")
 	add("c06-nilfield-matroska-track", "C06.nilfield", "format/matroska/matroska.go",
 		"\t\t\t\t\tif dc.currentTrack != nil && tagID == ebml_matroska.CodecIDID {", "\t\t\t\t\tif tagID == ebml_matroska.CodecIDID {", "currentTrack")
+	add("c06-nilfield-avi-assert", "C06.nilfield", "format/riff/avi.go",
+		"\t\t\t\t\t\t\tif stream != nil {\n\t\t\t\t\t\t\t\tstream.indexes = append(stream.indexes, ranges.Range{\n\t\t\t\t\t\t\t\t\tStart: offset * 8,\n\t\t\t\t\t\t\t\t\tLen:   size * 8,\n\t\t\t\t\t\t\t\t})\n\t\t\t\t\t\t\t}",
+		"\t\t\t\t\t\t\tstream.indexes = append(stream.indexes, ranges.Range{\n\t\t\t\t\t\t\t\tStart: offset * 8,\n\t\t\t\t\t\t\t\tLen:   size * 8,\n\t\t\t\t\t\t\t})", "var:stream")
+	// C06.outtype: a Try/OrRaw source of the asserted out value
+	add("c06-outtype-orraw", "C06.outtype", "format/mp4/boxes.go", "\t\t_, v := d.FieldFormat(\"descriptor\", &mpegESGroup, nil)\n\t\tmpegEsOut, ok := v.(format.MPEG_ES_Out)", "\t\t_, v := d.FieldFormatOrRaw(\"descriptor\", &mpegESGroup, nil)\n\t\tmpegEsOut, ok := v.(format.MPEG_ES_Out)", "MPEG_ES_Out")
 	// C06.loopguard
 	add("c06-loopguard-fresh-detector", "C06.loopguard", "format/apple/bookmark/apple_bookmark.go", "d.SeekAbs(int64(baseOffset), decodeRecord)", "d.SeekAbs(int64(baseOffset), makeDecodeRecord())", "maker:")
 	add("c06-loopguard-detect-errorf", "C06.loopguard", "format/apple/bookmark/apple_bookmark.go", "func() { d.Fatalf(\"infinite recursion detected in record decode function\") },", "func() { d.Errorf(\"infinite recursion detected in record decode function\") },", "detect:")
